@@ -239,6 +239,23 @@ def doChoose (impl : Array String) (n : Nat) (s0 : St) : St := Id.run do
   if n ≥ 4 then s := { s with nt := true }
   return s
 
+/-- a single binomial `choose(n, k)` (family choose-history: single calls in an order of the generator's choosing) -/
+def doChooseOne (impl : Array String) (n k : Nat) (s0 : St) : St := Id.run do
+  let mut s := { s0 with ops := s0.ops + 1 }
+  let mv := Choose.choose n k
+  s := s.emit s!"D chk {n} {k} {optN mv}"
+  if mv.isNone then s := { s with modelNone := s.modelNone + 1 }
+  if n > 64 then return s.skip "n above 64"
+  let (l, s1) := s.take impl "D chk"
+  s := s1
+  let some ws := l | return missing impl s "D chk"
+  let exp := Spec.binomT pascal n k
+  let vS := ws.getD 2 ""
+  if vS.toNat? != some exp then return s.fail s!"choose({n},{k}) = {vS}, expected {exp}"
+  s := { s with items := s.items + 1 }
+  if n ≥ 4 then s := { s with nt := true }
+  return s
+
 def lowOnes (w : Nat) : Nat := 2 ^ w - 1
 
 def judgeWord (w ord : Nat) (v : Nat) : Option String :=
@@ -602,6 +619,7 @@ def handle (c : Case) : CaseOut := Id.run do
       | some xs => s := doZigzag c.impl xs s
       | none => s := s.skip "unparsable zz"
     | ["ch", n] => s := doChoose c.impl (parseNat! n) s
+    | ["chk", n, k] => s := doChooseOne c.impl (parseNat! n) (parseNat! k) s
     | "ur" :: w :: ords =>
       match natList ords with
       | some os => s := doUnrank c.impl (parseNat! w) os s
